@@ -18,10 +18,15 @@ suite passes with it, its demonstration test passes without it and fails with it
 run against that worktree (`VERIF_REPO=<worktree> bin/check <id>`; /repo itself is never touched). `patch.diff`, the demonstration
 and `meta.json` are kept under `seeded/<name>/`. %d changes, all detected by the quick tier; the last column says which ones were
 MISSED when first evaluated and what was added to the specification / families because of it (a check was never loosened).
-Six rounds were run (names without a round tag are round 1). Kept changes / of which first missed, per round: 19 / 7, 19 / 11, 7 / 6, 15 / 2,
-14 / 3 (plus one caught by the check of its own property but missed by a second check it also breaks), 9 / 4 (agents were steered away from the
-code regions of earlier rounds; the misses: Set with a value already stored under a duplicated name, a lazily cloned base for references that
-repeat the base's scheme, an added special scheme without default port, upper-case hex digits in an IPv6 literal under C18 - caught by C08). Round 4's two misses (a profile's
+Seven rounds were run (names without a round tag are round 1). Kept changes / of which first missed, per round: 19 / 7, 19 / 11, 7 / 6, 15 / 2,
+15 / 3 (plus one caught by the check of its own property but missed by a second check it also breaks), 9 / 4, 10 / 5 (plus two caught only by a
+handful of recorded random-trace events, for which an enumerated family was added). From round 6 on the agents were steered away from the code
+regions of earlier rounds, which is why the miss rate rose again: each miss named an input shape no family contained (Set with a value already
+stored under a duplicated name; a lazily cloned base for references repeating the base's scheme; an added special scheme without default port;
+upper-case hex digits in an IPv6 literal under C18; eight IPv6 pieces followed by '::'; a zero piece after the compressed run; 'localhost.' in a
+file URL; a lone '.' segment under slash collapsing; a package-level table written while a parser is constructed) and the family, or in the last
+case the driver's fingerprinting, was extended. The specification itself predicted the right behaviour in every one of these cases - what was
+missing was always an input, never a rule. Round 4's two misses (a profile's
 `ParseRef` against an opaque-path base, and an accessor that depends on WHICH IPv6 address the host is) led to the `CanonRunB` operator and the
 address-kind families; round 5's three (a run of escaped invalid bytes in a query collapsed to one U+FFFD; an IPv4 tail part of 256..2559 inside
 an IPv6 literal; `IsIPv4` under lax host parsing) to the `formparse_bytes`, `v6tail_*` and `derived_lax` families. Changes that repeated an
